@@ -539,6 +539,11 @@ Definition run (s : sexp) : sexp :=
     | Some sc, Some d => cmd_mut_dict sc d
     | _, _ => bad
     end
+  | SL [SI 16; SI 2; SL script; SL data; SI n] =>
+    match omapM dec_mut script, omapM dec_Z data with
+    | Some sc, Some l => enc_zres (Depth.unflatten_leaves_mut true sc (Z.to_nat n) l)
+    | _, _ => bad
+    end
   | SL [SI 18; c; o] =>
     match dec_cfg c, dec_obj o with
     | Some c', Some o' => cmd_gc c' o'
